@@ -48,6 +48,7 @@ type Chain struct {
 	ByNumber  map[uint64]*Blk
 	ByHash    map[common.Hash]*Blk
 	Receipts  map[common.Hash]*types.Receipt
+	removedLogs map[common.Hash][]*types.Log // logs of the block a transaction has left, not yet announced as removed
 	MaxServed uint64 // highest head number ever served to the watcher
 	FailNext  map[string]int
 	Reqs      []string
@@ -93,7 +94,7 @@ func (c *Chain) Rotate() uint32 {
 }
 
 func NewChain(head uint64) *Chain {
-	c := &Chain{ByNumber: map[uint64]*Blk{}, ByHash: map[common.Hash]*Blk{}, Receipts: map[common.Hash]*types.Receipt{}, FailNext: map[string]int{}, Hold: map[string]chan struct{}{}, HoldSkip: map[string]int{}, LastServed: map[common.Hash]Served{}}
+	c := &Chain{ByNumber: map[uint64]*Blk{}, ByHash: map[common.Hash]*Blk{}, Receipts: map[common.Hash]*types.Receipt{}, removedLogs: map[common.Hash][]*types.Log{}, FailNext: map[string]int{}, Hold: map[string]chan struct{}{}, HoldSkip: map[string]int{}, LastServed: map[common.Hash]Served{}}
 	for n := uint64(0); n <= head; n++ {
 		c.addBlock(n, 0)
 	}
@@ -357,6 +358,11 @@ func (c *Chain) Mine(tx common.Hash, n uint64, fork int, status uint64, logs []L
 		rc.Logs = append(rc.Logs, l)
 		out = append(out, l)
 	}
+	if old := c.Receipts[tx]; old != nil && old.BlockHash != b.Hash {
+		// the transaction leaves its old block: a node announces the old block's logs once more, flagged as removed
+		// (a separate feed: the harness decides when - NotifyRemoved)
+		c.removedLogs[tx] = append([]*types.Log{}, old.Logs...)
+	}
 	c.Receipts[tx] = rc
 	subs := append([]*logSub{}, c.subs...)
 	c.mu.Unlock()
@@ -392,8 +398,33 @@ func (c *Chain) SetFinalized(n uint64) {
 // DropReceipt: the transaction is no longer known (orphaned).
 func (c *Chain) DropReceipt(tx common.Hash) {
 	c.mu.Lock()
+	if old := c.Receipts[tx]; old != nil {
+		c.removedLogs[tx] = append([]*types.Log{}, old.Logs...)
+	}
 	delete(c.Receipts, tx)
 	c.mu.Unlock()
+}
+
+// NotifyRemoved delivers the removal notice for the logs tx had in the block it left (Removed = true), as a node
+// does after a reorg. It returns the number of log entries sent.
+func (c *Chain) NotifyRemoved(tx common.Hash) int {
+	c.mu.Lock()
+	logs := c.removedLogs[tx]
+	delete(c.removedLogs, tx)
+	subs := append([]*logSub{}, c.subs...)
+	c.mu.Unlock()
+	n := 0
+	for _, l := range logs {
+		cp := *l
+		cp.Removed = true
+		for _, s := range subs {
+			if matches(s.crit, &cp) {
+				s.notifier.Notify(s.sub.ID, &cp)
+				n++
+			}
+		}
+	}
+	return n
 }
 
 func (c *Chain) SetStatus(tx common.Hash, st uint64) {
